@@ -25,6 +25,8 @@ func (*BytecodeCompiler).compileLoopExpressionNode
   // operand-stack accounting (verif_contracts_depth.go): ASSUMED of this node compiler
   ensures ghostdef one: ghost(depth, c) == old(ghost(depth, c)) + 1 || ghost(dead, c) == 1
   ensures ghostdef sticky: old(ghost(dead, c)) == 1 ==> ghost(dead, c) == 1
+  ensures ghostdef mono: clen(c) >= old(clen(c))
+  ensures ghostdef jkeep: forall k mathint :: jkey(c, 0) <= k && k < jkey(c, old(clen(c))) ==> ghost(jdepth, k) == old(ghost(jdepth, k))
   assert before emitLoop#1: c.additionalAbortChecks ==> c.lastOpCode == bytecode.CHECK_ABORT
 
 func (*BytecodeCompiler).compileWhileExpressionNode
@@ -35,6 +37,8 @@ func (*BytecodeCompiler).compileWhileExpressionNode
   // operand-stack accounting (verif_contracts_depth.go): ASSUMED of this node compiler
   ensures ghostdef one: ghost(depth, c) == old(ghost(depth, c)) + 1 || ghost(dead, c) == 1
   ensures ghostdef sticky: old(ghost(dead, c)) == 1 ==> ghost(dead, c) == 1
+  ensures ghostdef mono: clen(c) >= old(clen(c))
+  ensures ghostdef jkeep: forall k mathint :: jkey(c, 0) <= k && k < jkey(c, old(clen(c))) ==> ghost(jdepth, k) == old(ghost(jdepth, k))
   assert before emitLoop#1: c.additionalAbortChecks ==> c.lastOpCode == bytecode.CHECK_ABORT
 
 func (*BytecodeCompiler).modifierWhileExpression
@@ -59,6 +63,8 @@ func (*BytecodeCompiler).compileUntilExpressionNode
   // operand-stack accounting (verif_contracts_depth.go): ASSUMED of this node compiler
   ensures ghostdef one: ghost(depth, c) == old(ghost(depth, c)) + 1 || ghost(dead, c) == 1
   ensures ghostdef sticky: old(ghost(dead, c)) == 1 ==> ghost(dead, c) == 1
+  ensures ghostdef mono: clen(c) >= old(clen(c))
+  ensures ghostdef jkeep: forall k mathint :: jkey(c, 0) <= k && k < jkey(c, old(clen(c))) ==> ghost(jdepth, k) == old(ghost(jdepth, k))
   assert before emitLoop#1: c.additionalAbortChecks ==> c.lastOpCode == bytecode.CHECK_ABORT
 
 func (*BytecodeCompiler).compileForIn
@@ -85,5 +91,7 @@ func (*BytecodeCompiler).compileContinueExpressionNode
   // operand-stack accounting (verif_contracts_depth.go): ASSUMED of this node compiler
   ensures ghostdef one: ghost(depth, c) == old(ghost(depth, c)) + 1 || ghost(dead, c) == 1
   ensures ghostdef sticky: old(ghost(dead, c)) == 1 ==> ghost(dead, c) == 1
+  ensures ghostdef mono: clen(c) >= old(clen(c))
+  ensures ghostdef jkeep: forall k mathint :: jkey(c, 0) <= k && k < jkey(c, old(clen(c))) ==> ghost(jdepth, k) == old(ghost(jdepth, k))
   assert before emitJump#1: c.additionalAbortChecks ==> c.lastOpCode == bytecode.CHECK_ABORT
 @*/
